@@ -382,6 +382,13 @@ def build(tier, repo):
         for P in sorted(set(allocs)):
             back = len(re.findall(r"MAT_BUFI\s*\(\s*\w+\s*\)\s*\[[^\]]*\]\s*=\s*%s\s*\[" % re.escape(P), txt)) + _helper_calls(txt, helpers_back, P)
             into = len(re.findall(r"\b%s\s*\[[^\]]*\]\s*=\s*(?:\(int\)\s*)?MAT_BUFI\s*\(" % re.escape(P), txt)) + _helper_calls(txt, helpers_in, P)
+            # the same transfers written with walking pointers: `int *dst = P; const int_t *src = MAT_BUFI(X); .. *dst++ = *src++;`
+            pal = set(re.findall(r"\*\s*(\w+)\s*=\s*%s\s*[;,]" % re.escape(P), txt))
+            mal = set(re.findall(r"\*\s*(\w+)\s*=\s*MAT_BUFI\s*\(\s*\w+\s*\)\s*[;,]", txt))
+            for d_ in pal:
+                for s_ in mal:
+                    into += len(re.findall(r"\*\s*%s\s*(?:\+\+)?\s*=\s*(?:\(int\)\s*)?\*\s*%s\b" % (re.escape(d_), re.escape(s_)), txt))
+                    back += len(re.findall(r"\*\s*%s\s*(?:\+\+)?\s*=\s*(?:\(int_t\)\s*)?\*\s*%s\b" % (re.escape(s_), re.escape(d_)), txt))
             routines = sorted({m_.group(1) for m_ in re.finditer(r"\b([dz]\w+)_\s*\([^;]*\b%s\b" % re.escape(P), txt)})
             if not routines:
                 continue
